@@ -103,7 +103,7 @@ class Converter:
                 tracking_speed_attr_id=row.get('trackingSpeedAttributeID'),
                 fitting_usage_chance_attr_id=(
                     row.get('fittingUsageChanceAttributeID')),
-                resist_attr_id=row.get('resistanceAttributeID'),
+                resist_attr_id=row.get('resistanceID'),
                 build_status=build_status,
                 modifiers=tuple(modifiers)))
 
